@@ -121,7 +121,8 @@ def describe(cfg, sweeper_comm=None):
             desc['base_transfer_class'] = base_transfer_MPI
     if cfg['adaptive'] is not None:
         level_params['restol'] = -1.0
-        desc['convergence_controllers'][TableAdaptivity] = dict(cfg['adaptive'])
+        # 'real_estimate': the shipped Adaptivity with its own (e.g. linearized) embedded error estimator, nothing scripted
+        desc['convergence_controllers'][Adaptivity if cfg.get('real_estimate') else TableAdaptivity] = dict(cfg['adaptive'])
     if cfg['restarting'] is not None:
         from pySDC.implementations.convergence_controller_classes.basic_restarting import BasicRestarting
 
